@@ -169,6 +169,24 @@ func (ma *mergeAnalysis) ruleR1(c *Ctx) {
 				}
 				g := mf.claimAllLoop(coll, w.block())
 				if g == nil {
+					// a list built from the elements of another local list (converted copies): the claim-all loop over that one
+					if ins, local := mf.insertions(coll); local && len(ins) > 0 {
+						for _, i := range ins {
+							var g2 *claimCall
+							if i.elem != nil {
+								if c2, _ := rangeOf(i.elem); c2 != nil {
+									g2 = mf.claimAllLoop(c2, w.block())
+								}
+							}
+							if g2 == nil {
+								g = nil
+								break
+							}
+							g = g2
+						}
+					}
+				}
+				if g == nil {
 					okAll = false
 					break
 				}
